@@ -19,14 +19,14 @@ theorem inv_of_core {v : World} (h : Inv ps pend w) (e : core v = core w) : Inv 
 def okMsgW (ps : String) (w : World) (m : Msg) : Prop := okMsg ps w.mySide m
 
 theorem receivedMsg_inv (hps : ps < w.mySide ∨ w.mySide < ps) (h : Inv ps pend w) (hm : w.hasMgr = true)
-    (hk : w.key = true) (m : Msg) (hok : okMsg ps w.mySide m) : Inv ps pend (receivedMsg m w).1 := by
+    (hk : w.key = true) (m : Msg) (hok : okMsg ps w.mySide m) (ht : TimerOk w) : Inv ps pend (receivedMsg m w).1 := by
   cases m with
   | please s =>
     simp only [okMsg] at hok
     subst hok
     exact please_inv hps h hm hk
   | hints n => exact inv_of_core h (hints_core n w)
-  | reconnect => exact reconnect_inv hok h hm
+  | reconnect => exact reconnect_inv hok h hm ht
   | reconnecting => exact reconnecting_inv h hm
   | unknown => exact h
 
@@ -53,19 +53,19 @@ theorem keep_mgrGotVersions (v : Vers) (w : World) : KeepD w (mgrGotVersions v w
   dsimp only
   refine KeepD.trans ?_ (keep_mInput _ _ _ _)
   split
-  · exact ⟨rfl, rfl, rfl, rfl, rfl, rfl, rfl, rfl, rfl, rfl, rfl, rfl, fun _ => rfl⟩
+  · exact ⟨rfl, rfl, rfl, rfl, rfl, rfl, rfl, rfl, rfl, rfl, rfl, rfl, fun _ => rfl, fun h => h⟩
   · keep_rfl
 
 theorem drainMsgs_inv (l : List Msg) : ∀ (w : World), (ps < w.mySide ∨ w.mySide < ps) → Inv ps pend w → w.hasMgr = true →
-    (l ≠ [] → w.key = true) → (∀ m ∈ l, okMsg ps w.mySide m) → Inv ps pend (drainMsgs l w).1 := by
+    (l ≠ [] → w.key = true) → (∀ m ∈ l, okMsg ps w.mySide m) → TimerOk w → Inv ps pend (drainMsgs l w).1 := by
   induction l with
-  | nil => intro w _ h hm _ _; exact InvC.setPMsgs (k := core w) h hm []
+  | nil => intro w _ h hm _ _ _; exact InvC.setPMsgs (k := core w) h hm []
   | cons m rest ih =>
-    intro w hps h hm hk hok
+    intro w hps h hm hk hok ht
     simp only [drainMsgs]
     have hk' : w.key = true := hk (by simp)
     have h1 : Inv ps pend (receivedMsg m { w with pMsgs := rest }).1 :=
-      receivedMsg_inv (w := { w with pMsgs := rest }) hps (InvC.setPMsgs (k := core w) h hm rest) hm hk' m (hok m (by simp))
+      receivedMsg_inv (w := { w with pMsgs := rest }) hps (InvC.setPMsgs (k := core w) h hm rest) hm hk' m (hok m (by simp)) ht
     have hkeep := keep_receivedMsg m { w with pMsgs := rest }
     rcases hr : receivedMsg m { w with pMsgs := rest } with ⟨w2, e⟩
     rw [hr] at h1 hkeep
@@ -79,8 +79,9 @@ theorem drainMsgs_inv (l : List Msg) : ∀ (w : World), (ps < w.mySide ∨ w.myS
       · rw [hkeep.hasMgr]; exact hm
       · intro _; rw [hkeep.key]; exact hk'
       · intro m' hm'; rw [hkeep.mySide]; exact hok m' (by simp [hm'])
+      · exact hkeep.timerOk ht
 
-theorem dilate_inv (hps : ps < w.mySide ∨ w.mySide < ps) (h : Inv ps pend w) : Inv ps pend (dilate w).1 := by
+theorem dilate_inv (hps : ps < w.mySide ∨ w.mySide < ps) (h : Inv ps pend w) (ht : TimerOk w) : Inv ps pend (dilate w).1 := by
   unfold dilate
   split
   · exact h
@@ -101,6 +102,7 @@ theorem dilate_inv (hps : ps < w.mySide ∨ w.mySide < ps) (h : Inv ps pend w) :
       have e2 : w2.mySide = w.mySide := by rw [← hw2]; unfold replayKey; split <;> rfl
       have e3 : w2.pMsgs = w.pMsgs := by rw [← hw2]; unfold replayKey; split <;> rfl
       have e5 : w.pKey = true → w2.key = true := by intro hk; rw [← hw2]; simp [replayKey, hk]
+      have e6 : TimerOk w2 := by rw [← hw2]; unfold replayKey; split <;> exact ht
       -- versions replay
       have h3 : Inv ps pend (replayVersions w2).1 := by
         unfold replayVersions
@@ -132,6 +134,7 @@ theorem dilate_inv (hps : ps < w.mySide ∨ w.mySide < ps) (h : Inv ps pend w) :
           rw [k3.pMsgs, e3] at hm
           rw [k3.mySide, e2]
           exact n5 m hm
+        · exact k3.timerOk e6
 
 
 theorem inv_core_eq {v : World} {k : Core} (hk : InvC ps pend k) (e : core v = k) : Inv ps pend v := by
@@ -143,10 +146,23 @@ theorem hasMgr_of_ms (h : Inv ps pend w) (hs : w.ms ≠ .WAITING) : w.hasMgr = t
   · exact absurd (h.noMgr hm).1 hs
   · rfl
 
-/-- the `manager.connector_connection_lost()` callback runs -/
-theorem connectionLost_inv (h : Inv ps (Thunk.mgrLost :: pend) w) : Inv ps pend (connectionLost w).1 := by
+/-- the world `_stop_using_connection` leaves (when cancelling the timer does not raise) -/
+abbrev lostWorld (w : World) : World :=
+  { w with tt := w.tt.map fun _ => TrafficTimer.State.no_connection, timer := .none, conn := none }
+
+theorem connectionLost_eq (w : World) (ht : TimerOk w) :
+    connectionLost w = (if w.conn.isNone then (lostWorld w, some .attribute) else
+      if w.role = some true then mInput .connection_lost_leader "" 0 (lostWorld w)
+      else mInput .connection_lost_follower "" 0 (lostWorld w)) := by
   unfold connectionLost
   dsimp only
+  rw [cancelTimer_ok _ _ stopUsingSafe (by exact ht)]
+  rfl
+
+/-- the `manager.connector_connection_lost()` callback runs -/
+theorem connectionLost_inv (h : Inv ps (Thunk.mgrLost :: pend) w) (ht : TimerOk w) : Inv ps pend (connectionLost w).1 := by
+  rw [connectionLost_eq w ht]
+  simp only [lostWorld]
   cases hc : w.conn with
   | none =>
     simp only [Option.isNone_none, ↓reduceIte]
@@ -200,7 +216,7 @@ theorem connectionLost_inv (h : Inv ps (Thunk.mgrLost :: pend) w) : Inv ps pend 
           have := (h.ctorB g hg).2
           simp [core, hms] at this
         show InvC ps pend (core _)
-        rw [reconTail_core { w with timer := false, conn := none, ms := .CONNECTING } hr hk]
+        rw [reconTail_core { w with tt := w.tt.map fun _ => TrafficTimer.State.no_connection, timer := .none, conn := none, ms := .CONNECTING } hr hk]
         exact hdrop (InvC.toConnecting (k := core w) h hm (by simp [core, hms]) (by simp [core, hms]) w.role hr h.roleVal hk
           w.ctors hnc w.conns none) (by simp [inConn, core])
       · -- CONNECTED → LONELY
